@@ -16,7 +16,7 @@ UNMODELLED_FN = 'g_unmodelled'
 RULE = ('item sequences of 0-9 small ints (also lists / dicts for Flatten / Merge leaves); Group spec trees of 0-3 single-key dict '
         'levels over key functions {x % 2, x // d, T, SKIP-if-odd, constant} ending in [value function] or a leaf '
         'aggregator {First, Max, Min, Sum, Count, Avg, Flatten, Merge}, optionally under a top-level Limit(n); every spec object is '
-        'evaluated twice in a row and once nested in a list spec. Each outcome is compared with the code-shaped model AND with the '
+        'evaluated twice in a row, once nested in a list spec and once as the sub-spec of a Merge / Flatten / Sum aggregating for an outer Group. Each outcome is compared with the code-shaped model AND with the '
         'hand-written bucketing loop of Spec/GroupSpec.v. Non-trivial: >= 1 key level with >= 2 distinct keys, or a SKIP/STOP key.')
 ASSUMPTIONS = ['multi-key dict levels share one accumulator dict in the code and are outside the property (single-key levels only)',
                'Sample (random) is not in the property', 'Avg is compared as the exact reduced fraction of the float result']
@@ -174,6 +174,27 @@ def run_impl(case):
         out['nested_same'] = ('ok' in out and [enc(x) for x in res3] == [out['ok'], out['ok']])
     except Exception as e:
         out['nested_same'] = 'raise' in out
+    # nested evaluation proper: the Group spec as the sub-spec of an aggregator that is itself aggregating for an outer Group
+    if 'ok' in out and ident is None:
+        try:
+            first = glom.glom(items, gspec)
+            if isinstance(first, dict):
+                got = glom.glom([items, items], Group(glom.Merge(gspec)))
+                want = dict(first)
+            elif isinstance(first, list):
+                got = glom.glom([items, items], Group(glom.Flatten(gspec)))
+                want = first + first
+            elif type(first) is int:
+                got = glom.glom([items, items], Group(glom.Sum(gspec)))
+                want = 2 * first
+            else:
+                got = want = None
+            out['inside_aggregator_same'] = (got == want)
+            if got != want:
+                out['inside_aggregator'] = [repr(got)[:200], repr(want)[:200]]
+        except Exception as e:
+            out['inside_aggregator_same'] = False
+            out['inside_aggregator'] = [type(e).__name__, 'the stand-alone results combined']
     return out
 
 
@@ -268,6 +289,9 @@ def direct_oracle(case, out):
         return 'evaluating the same Group spec object a second time gives a different result (accumulator state survived)'
     if out.get('nested_same') is False and not (isinstance(out.get('ok'), dict) and 'sent' in out['ok']):
         return 'the Group spec nested in a list spec does not give the stand-alone result for each element'
+    if out.get('inside_aggregator_same') is False:
+        return ('the Group spec evaluated inside an outer Group\'s aggregator does not give the stand-alone results combined: %r'
+                % (out.get('inside_aggregator'),))
     return None
 
 
